@@ -59,18 +59,19 @@ DNames(ns) ==    \* dNSName entries in the SAN
 
 \* ---------------------------------------------------------------- pins
 \* m<bits>: the digest of that size of the presented certificate; x<bits>: some other digest of
-\* that size; w<bytes>: a byte string that is no digest length at all.
-PinKinds == {"m224", "m256", "m384", "m512", "x256", "x512", "w20", "w33"}
+\* that size; n<bits>: the matching digest with one bit flipped (n256: in the last byte, n512: in the first);
+\* w<bytes>: a byte string that is no digest length at all.
+PinKinds == {"m224", "m256", "m384", "m512", "x256", "x512", "n256", "n512", "w20", "w33"}
 PinMatches(k)    == k \in {"m224", "m256", "m384", "m512"}
 PinWellFormed(k) == k \notin {"w20", "w33"}
-PinConfigurable(k) == k \in {"m256", "m512", "x256", "x512"}   \* decodeFingerprints: 32 or 64 bytes only
+PinConfigurable(k) == k \in {"m256", "m512", "x256", "x512", "n256", "n512"}   \* decodeFingerprints: 32 or 64 bytes only
 
 PinsWellFormed(p)   == \A i \in 1..Len(p) : PinWellFormed(p[i])
 PinsConfigurable(p) == \A i \in 1..Len(p) : PinConfigurable(p[i])
 
 \* pin lists and stream sources for the configurations (the cfg syntax has no tuples)
 PinListsQuick == {<<>>, <<"m256">>, <<"m512">>, <<"x256">>, <<"w20">>, <<"x256", "m256">>, <<"m256", "w20">>,
-                  <<"x512", "x256">>, <<"m384">>}
+                  <<"x512", "x256">>, <<"m384">>, <<"n256">>, <<"n512", "x256">>}
 PinListsFull  == PinListsQuick \cup
                  {<<"m224">>, <<"x512">>, <<"w33">>, <<"x512", "m512">>, <<"m256", "x512">>, <<"w20", "m256">>,
                   <<"x256", "w33", "m512">>}
